@@ -26,7 +26,8 @@ FLOORS = {"nontrivial": 1000, "observed": {"purity.contract_evaluations": 3000,
 RULE = ("corpus of G-nix / G-canon texts plus edit and resolve scripts; (i) purity (corpus, the single-gap grid and the multi-gap small-alphabet grid): an icontract "
         "snapshot/ensure contract on NixSourceCode.rebuild (every call) and on every expression "
         "class's rebuild (1 in 8 calls) compares a deep structural snapshot of the tree before and "
-        "after, and three consecutive rebuilds must agree; (ii) history: the same texts in shuffled "
+        "after, three consecutive rebuilds must agree, and a rebuild that raises (a random node swapped "
+        "for one whose rebuild raises) must leave the tree unchanged; (ii) history: the same texts in shuffled "
         "orders interleaved with edits / resolves of other documents give the serial baseline's "
         "results; (iii) schedules: 16 threads (switch interval 1 microsecond, LINE-event yield "
         "injection in the functions that touch shared state) each parse / rebuild / set_value / "
@@ -63,6 +64,67 @@ RESOLVE_DOCS = [
     ("rec {{\n  x = y;\n  y = {v};\n}}\n", "x"),
     ("let\n  p = {{ q = {v}; }};\nin\n{{\n  inherit (p) q;\n  r = q;\n}}\n", "r"),
 ]
+
+
+def inject_rebuild_fault(rng, doc):
+    """Pick a random expression node below the document (a binding value, a list element, an
+    operand ...) and return (get, set, original, poison): poison.rebuild raises."""
+    import dataclasses
+    from nix_manipulator.expressions.expression import NixExpression
+
+    class Poison(NixExpression):
+        def rebuild(self, indent: int = 0, inline: bool = False, **kw):  # noqa: ARG002
+            raise ValueError("injected rebuild fault")
+
+        def has_scope(self):
+            return False
+
+    slots = []
+    seen = set()
+
+    def walk(obj, depth=0):
+        if id(obj) in seen or depth > 60:
+            return
+        seen.add(id(obj))
+        if dataclasses.is_dataclass(obj) and not isinstance(obj, type):
+            for f in dataclasses.fields(obj):
+                if f.name in ("before", "after", "scope", "scope_state", "node"):
+                    continue
+                try:
+                    val = getattr(obj, f.name)
+                except AttributeError:
+                    continue
+                if isinstance(val, NixExpression):
+                    slots.append((obj, f.name, None))
+                    walk(val, depth + 1)
+                elif isinstance(val, list):
+                    for i, item in enumerate(val):
+                        if isinstance(item, NixExpression):
+                            slots.append((obj, f.name, i))
+                            walk(item, depth + 1)
+                        elif dataclasses.is_dataclass(item):
+                            walk(item, depth + 1)
+    for e in doc.expressions:
+        walk(e)
+    if not slots:
+        return None
+    owner, name, idx = rng.choice(slots)
+    if idx is None:
+        original = getattr(owner, name)
+
+        def setter(v):
+            setattr(owner, name, v)
+    else:
+        lst = getattr(owner, name)
+        original = lst[idx]
+
+        def setter(v):
+            lst[idx] = v
+    try:
+        poison = Poison()
+    except Exception:  # noqa: BLE001
+        return None
+    return (lambda: None), setter, original, poison
 
 
 def job(kind, text, extra=None):
@@ -150,6 +212,37 @@ def run_shard(spec):
             obs["purity"]["rebuilds"] += 3
             if not d.contains_error:
                 nontriv.add(B.h64(text))
+            # fault point: one node of the tree is swapped for a node whose rebuild raises; the
+            # failed rebuild must leave every other field of the tree as it was, and after the
+            # node is put back the document must render as before
+            if not d.contains_error and len(set(outs)) == 1 and rng.random() < 0.5:
+                fault = inject_rebuild_fault(rng, d)
+                if fault is not None:
+                    from nmverif.monitor.snapshot import snapshot
+                    slot_get, slot_set, original, poison = fault
+                    slot_set(poison)
+                    snap_before = snapshot(d.expressions)
+                    raised = False
+                    try:
+                        d.rebuild()
+                    except Exception:  # noqa: BLE001
+                        raised = True
+                    obs["purity"]["faulted_rebuilds"] = obs["purity"].get("faulted_rebuilds", 0) + 1
+                    if raised:
+                        obs["purity"]["faulted_rebuilds_raised"] = obs["purity"].get("faulted_rebuilds_raised", 0) + 1
+                        if snapshot(d.expressions) != snap_before:
+                            B.record(res, {"effect": "failed-rebuild-mutated-tree", "poisoned": type(original).__name__},
+                                     {"text": text}, "deep snapshot differs after a rebuild() that raised")
+                    slot_set(original)
+                    try:
+                        again = d.rebuild()
+                        if raised and again != outs[0]:
+                            B.record(res, {"effect": "document-differs-after-failed-rebuild",
+                                           "poisoned": type(original).__name__},
+                                     {"text": text}, f"{outs[0]!r} vs {again!r}"[:1200])
+                    except Exception as exc:  # noqa: BLE001
+                        B.record(res, {"effect": "rebuild-raises-after-fault-removed", "exc": type(exc).__name__},
+                                 {"text": text}, str(exc)[:200])
             if len(set(outs)) != 1:
                 B.record(res, {"effect": "repeated-rebuild-differs"}, {"text": text},
                          f"{outs[0]!r} vs {outs[1]!r} vs {outs[2]!r}"[:1500])
